@@ -235,6 +235,7 @@ func doParsing(mp *msgParser) (err error) {
 	mp.fieldIndex++
 	xmlDataLen := 0
 	xmlDataMsg := false
+	dataLen := 0
 	mp.trailerBytes = []byte{}
 	mp.foundBody = false
 	mp.foundTrailer = false
@@ -250,8 +251,9 @@ func doParsing(mp *msgParser) (err error) {
 			xmlDataLen = 0
 			xmlDataMsg = true
 		} else {
-			mp.rawBytes, err = extractField(mp.parsedFieldBytes, mp.rawBytes)
+			mp.rawBytes, err = extractDataField(mp.parsedFieldBytes, mp.rawBytes, dataLen)
 		}
+		dataLen = 0
 		if err != nil {
 			return
 		}
@@ -279,6 +281,10 @@ func doParsing(mp *msgParser) (err error) {
 
 		if mp.parsedFieldBytes.tag == tagXMLDataLen {
 			xmlDataLen, _ = mp.msg.Header.getIntNoLock(tagXMLDataLen)
+		} else if isDataLengthTag(mp.parsedFieldBytes.tag) {
+			// The field that follows is a data field: it is as long as this field says and may contain
+			// the delimiter.
+			dataLen, _ = atoi(mp.parsedFieldBytes.value)
 		}
 		mp.fieldIndex++
 	}
@@ -293,6 +299,10 @@ func doParsing(mp *msgParser) (err error) {
 	if len(mp.msg.bodyBytes) > len(mp.trailerBytes) {
 		mp.msg.bodyBytes = mp.msg.bodyBytes[:len(mp.msg.bodyBytes)-len(mp.trailerBytes)]
 	}
+
+	// A data field with delimiters in it takes fewer slots than were counted: the slots left over may hold
+	// fields of an earlier message parsed into the same Message.
+	mp.msg.fields = mp.msg.fields[:mp.fieldIndex+1]
 
 	length := 0
 	for _, field := range mp.msg.fields {
@@ -313,6 +323,16 @@ func doParsing(mp *msgParser) (err error) {
 	return
 }
 
+// isDataLengthTag tells the length fields of the standard data fields (RawDataLength, SignatureLength,
+// SecureDataLen, the Encoded...Len fields): the field next to them carries that many bytes.
+func isDataLengthTag(tag Tag) bool {
+	switch tag {
+	case 90, 93, 95, 348, 350, 352, 354, 356, 358, 360, 362, 364, 445, 618, 621:
+		return true
+	}
+	return false
+}
+
 // parseGroup iterates through a repeating group to maintain correct order of those fields.
 func parseGroup(mp *msgParser, tags []Tag) {
 	mp.foundBody = true
@@ -321,6 +341,7 @@ func parseGroup(mp *msgParser, tags []Tag) {
 	mp.trailerBytes = mp.rawBytes
 	dm := mp.msg.fields[mp.fieldIndex : mp.fieldIndex+1]
 	fields := getGroupFields(mp.msg, tags, mp.appDataDictionary)
+	dataLen := 0
 
 	for {
 		if mp.fieldIndex+1 >= len(mp.msg.fields) {
@@ -331,7 +352,12 @@ func parseGroup(mp *msgParser, tags []Tag) {
 		}
 		mp.fieldIndex++
 		mp.parsedFieldBytes = &mp.msg.fields[mp.fieldIndex]
-		mp.rawBytes, _ = extractField(mp.parsedFieldBytes, mp.rawBytes)
+		mp.rawBytes, _ = extractDataField(mp.parsedFieldBytes, mp.rawBytes, dataLen)
+		dataLen = 0
+		if isDataLengthTag(mp.parsedFieldBytes.tag) {
+			// the field that follows is a data field of that many bytes
+			dataLen, _ = atoi(mp.parsedFieldBytes.value)
+		}
 
 		// Is this field a member for the group.
 		if isGroupMember(mp.parsedFieldBytes.tag, fields) {
@@ -582,6 +608,17 @@ func extractXMLDataField(parsedFieldBytes *TagValue, buffer []byte, dataLen int)
 
 	err = parsedFieldBytes.parse(buffer[:endIndex+1])
 	return buffer[(endIndex + 1):], err
+}
+
+// extractDataField reads the field that follows a length field (dataLen > 0): it ends at the delimiter
+// dataLen bytes after the '=', so the value may contain delimiters. Where the length does not lead to a
+// delimiter the field is read like any other.
+func extractDataField(parsedFieldBytes *TagValue, buffer []byte, dataLen int) (remBytes []byte, err error) {
+	if eq := bytes.IndexByte(buffer, '='); dataLen > 0 && eq != -1 && dataLen < len(buffer)-eq-1 && buffer[eq+1+dataLen] == '\001' {
+		err = parsedFieldBytes.parse(buffer[:eq+1+dataLen+1])
+		return buffer[eq+1+dataLen+1:], err
+	}
+	return extractField(parsedFieldBytes, buffer)
 }
 
 func extractField(parsedFieldBytes *TagValue, buffer []byte) (remBytes []byte, err error) {
